@@ -442,10 +442,10 @@ theorem vm_except_branch (fuel : Nat) (k : Key) (s s1 s2 : VM) (i : Inst) (hd hd
     (hcfg : cfgOfInst k.1 s = .ok cfg s)
     (hhd : i.findHead k.2 = some hd) (hact : hd.status = .active)
     (hpre : (do
-        setHeadPos k (hd.pos + 1)
         if (← getInst k.1).status = FlowStatus.waiting then setFlowStatus k.1 FlowStatus.starting
         pure (decide ((← getInst k.1).status = FlowStatus.starting))) s = .ok starting s1)
     (hraise : (do
+        setHeadPos k (hd.pos + 1)
         let newHeads ← slide fuel k.1 k.2
         if newHeads.isEmpty then pure [] else advanceHeadFront fuel newHeads) s1 = .error (.py c m) s2)
     (hhd2 : (findInst s2.ixs.ix k.1).bind (·.findHead k.2) = some hd2) (hpos : hd2.pos < cfg.elements.size) :
@@ -466,10 +466,10 @@ theorem vm_error_contained (fuel : Nat) (k : Key) (s s1 s2 : VM) (i : Inst) (hd 
     (hcfg : cfgOfInst k.1 s = .ok cfg s)
     (hhd : i.findHead k.2 = some hd) (hact : hd.status = .active)
     (hpre : (do
-        setHeadPos k (hd.pos + 1)
         if (← getInst k.1).status = FlowStatus.waiting then setFlowStatus k.1 FlowStatus.starting
         pure (decide ((← getInst k.1).status = FlowStatus.starting))) s = .ok starting s1)
     (hraise : (do
+        setHeadPos k (hd.pos + 1)
         let newHeads ← slide (fuel + 1) k.1 k.2
         if newHeads.isEmpty then pure [] else advanceHeadFront (fuel + 1) newHeads) s1 = .error (.py c m) s2)
     (hhd2 : (findInst s2.ixs.ix k.1).bind (·.findHead k.2) = some hd2) (hpos : hd2.pos < cfg.elements.size) :
@@ -525,10 +525,10 @@ theorem vm_leaf_error_never_propagates (fuel : Nat) (k : Key) (s s1 s2 : VM) (i 
     (hcfg : cfgOfInst k.1 s = .ok cfg s)
     (hhd : i.findHead k.2 = some hd) (hact : hd.status = .active)
     (hpre : (do
-        setHeadPos k (hd.pos + 1)
         if (← getInst k.1).status = FlowStatus.waiting then setFlowStatus k.1 FlowStatus.starting
         pure (decide ((← getInst k.1).status = FlowStatus.starting))) s = .ok starting s1)
     (hraise : (do
+        setHeadPos k (hd.pos + 1)
         let newHeads ← slide (fuel + 1) k.1 k.2
         if newHeads.isEmpty then pure [] else advanceHeadFront (fuel + 1) newHeads) s1 = .error (.py c m) s2)
     (hhd2 : (findInst s2.ixs.ix k.1).bind (·.findHead k.2) = some hd2) (hpos : hd2.pos < cfg.elements.size)
@@ -547,10 +547,10 @@ theorem vm_restart_guard (fuel : Nat) (k : Key) (s s1 s2 : VM) (i : Inst) (hd hd
     (hcfg : cfgOfInst k.1 s = .ok cfg s)
     (hhd : i.findHead k.2 = some hd) (hact : hd.status = .active)
     (hpre : (do
-        setHeadPos k (hd.pos + 1)
         if (← getInst k.1).status = FlowStatus.waiting then setFlowStatus k.1 FlowStatus.starting
         pure (decide ((← getInst k.1).status = FlowStatus.starting))) s = .ok true s1)
     (hraise : (do
+        setHeadPos k (hd.pos + 1)
         let newHeads ← slide (fuel + 1) k.1 k.2
         if newHeads.isEmpty then pure [] else advanceHeadFront (fuel + 1) newHeads) s1 = .error (.py c m) s2)
     (hhd2 : (findInst s2.ixs.ix k.1).bind (·.findHead k.2) = some hd2) (hpos : hd2.pos < cfg.elements.size)
@@ -638,10 +638,10 @@ theorem vm_faulty_flow_fails_alone (G : FUid → Prop) (fuel : Nat) (k : Key) (s
     (hcfg : cfgOfInst k.1 s = .ok cfg s)
     (hhd : i.findHead k.2 = some hd) (hact : hd.status = .active)
     (hpre : (do
-        setHeadPos k (hd.pos + 1)
         if (← getInst k.1).status = FlowStatus.waiting then setFlowStatus k.1 FlowStatus.starting
         pure (decide ((← getInst k.1).status = FlowStatus.starting))) s = .ok starting s1)
     (hraise : (do
+        setHeadPos k (hd.pos + 1)
         let newHeads ← slide (fuel + 1) k.1 k.2
         if newHeads.isEmpty then pure [] else advanceHeadFront (fuel + 1) newHeads) s1 = .error (.py c m) s2)
     (hhd2 : (findInst s2.ixs.ix k.1).bind (·.findHead k.2) = some hd2) (hpos : hd2.pos < cfg.elements.size)
@@ -717,10 +717,10 @@ example : ∃ (i : Inst) (hd hd2 : Head) (s1 s2 : VM) (starting : Bool) (c m : S
     findInst demoVM.ixs.ix "f" = some i ∧ i.status.listening = true ∧ cfgOfInst "f" demoVM = .ok demoCfg demoVM ∧
     i.findHead "h" = some hd ∧ hd.status = .active ∧
     (do
-        setHeadPos ("f", "h") (hd.pos + 1)
         if (← getInst "f").status = FlowStatus.waiting then setFlowStatus "f" FlowStatus.starting
         pure (decide ((← getInst "f").status = FlowStatus.starting))) demoVM = .ok starting s1 ∧
     (do
+        setHeadPos ("f", "h") (hd.pos + 1)
         let newHeads ← slide 3 "f" "h"
         if newHeads.isEmpty then pure [] else advanceHeadFront 3 newHeads) s1 = .error (.py c m) s2 ∧
     (findInst s2.ixs.ix "f").bind (·.findHead "h") = some hd2 ∧ hd2.pos < demoCfg.elements.size :=
@@ -811,10 +811,10 @@ def demoVM3 : VM :=
 /-- non-vacuity of `vm_leaf_error_never_propagates`: the leaf hypothesis holds at the raise state of the concrete run … -/
 example : ∃ (s1 s2 : VM) (c m : String),
     (do
-        setHeadPos ("f", "h") 1
         if (← getInst "f").status = FlowStatus.waiting then setFlowStatus "f" FlowStatus.starting
         pure (decide ((← getInst "f").status = FlowStatus.starting))) demoVM3 = .ok true s1 ∧
     (do
+        setHeadPos ("f", "h") 1
         let newHeads ← slide 3 "f" "h"
         if newHeads.isEmpty then pure [] else advanceHeadFront 3 newHeads) s1 = .error (.py c m) s2 ∧
     Leafish1 "f" (some "m") 0 s2 :=
@@ -892,10 +892,10 @@ def demoVM4 : VM :=
 /-- non-vacuity of `vm_restart_guard` … -/
 example : ∃ (s1 s2 : VM) (c m : String) (x : InstX),
     (do
-        setHeadPos ("f", "h") 1
         if (← getInst "f").status = FlowStatus.waiting then setFlowStatus "f" FlowStatus.starting
         pure (decide ((← getInst "f").status = FlowStatus.starting))) demoVM4 = .ok true s1 ∧
     (do
+        setHeadPos ("f", "h") 1
         let newHeads ← slide 3 "f" "h"
         if newHeads.isEmpty then pure [] else advanceHeadFront 3 newHeads) s1 = .error (.py c m) s2 ∧
     OMap.lookup "f" s2.r.fx = some x ∧ x.activated > 0 :=
